@@ -49,6 +49,8 @@ impl<T> AtomicWeak<T> {
     /// Panics if `order` is `Release` or `AcqRel`.
     #[inline]
     pub fn load<'g>(&self, order: Ordering, guard: &'g Guard) -> WeakSnapshot<'g, T> {
+        #[cfg(feature = "circ_verif")]
+        crate::verif::yp(crate::verif::site::AW_LOAD, &self.link as *const _ as usize);
         WeakSnapshot::from_raw(self.link.load(order), guard)
     }
 
@@ -60,6 +62,8 @@ impl<T> AtomicWeak<T> {
     pub fn store(&self, ptr: Weak<T>, order: Ordering, guard: &Guard) {
         let new_ptr = ptr.ptr;
         forget(ptr);
+        #[cfg(feature = "circ_verif")]
+        crate::verif::yp2(crate::verif::site::AW_STORE_SWAP, &self.link as *const _ as usize, new_ptr.verif_word(), 0);
         let old_ptr = self.link.swap(new_ptr, order);
         unsafe {
             if let Some(cnt) = old_ptr.as_raw().as_mut() {
@@ -75,6 +79,8 @@ impl<T> AtomicWeak<T> {
     #[inline(always)]
     pub fn swap(&self, new: Weak<T>, order: Ordering) -> Weak<T> {
         let new_ptr = new.into_raw();
+        #[cfg(feature = "circ_verif")]
+        crate::verif::yp2(crate::verif::site::AW_SWAP, &self.link as *const _ as usize, new_ptr.verif_word(), 0);
         let old_ptr = self.link.swap(new_ptr, order);
         Weak::from_raw(old_ptr)
     }
@@ -105,6 +111,8 @@ impl<T> AtomicWeak<T> {
         failure: Ordering,
         guard: &'g Guard,
     ) -> Result<Weak<T>, CompareExchangeError<Weak<T>, WeakSnapshot<'g, T>>> {
+        #[cfg(feature = "circ_verif")]
+        crate::verif::yp2(crate::verif::site::AW_CAS, &self.link as *const _ as usize, expected.ptr.verif_word(), desired.ptr.verif_word());
         match self
             .link
             .compare_exchange(expected.ptr, desired.ptr, success, failure)
@@ -150,6 +158,8 @@ impl<T> AtomicWeak<T> {
         failure: Ordering,
         guard: &'g Guard,
     ) -> Result<Weak<T>, CompareExchangeError<Weak<T>, WeakSnapshot<'g, T>>> {
+        #[cfg(feature = "circ_verif")]
+        crate::verif::yp2(crate::verif::site::AW_CAS_WEAK, &self.link as *const _ as usize, expected.ptr.verif_word(), desired.ptr.verif_word());
         match self
             .link
             .compare_exchange_weak(expected.ptr, desired.ptr, success, failure)
@@ -202,6 +212,8 @@ impl<T> AtomicWeak<T> {
     ) -> Result<WeakSnapshot<'g, T>, CompareExchangeError<WeakSnapshot<'g, T>, WeakSnapshot<'g, T>>>
     {
         let desired_raw = expected.ptr.with_tag(desired_tag);
+        #[cfg(feature = "circ_verif")]
+        crate::verif::yp2(crate::verif::site::AW_CAS_TAG, &self.link as *const _ as usize, expected.ptr.verif_word(), desired_raw.verif_word());
         match self
             .link
             .compare_exchange(expected.ptr, desired_raw, success, failure)
